@@ -1,4 +1,4 @@
-import CardVerif.Model.Basic
+import CardModel.Model.Basic
 /-!
 # `card_utils.games.poker.five_card_hand_rank`
 
